@@ -7,7 +7,8 @@ META = {
     "decided": [
         "03.a stepping month by month moves by exactly n on the month line of ANY leap table: forward then back returns to the same month, the leap month directly follows the regular month of the same number (= 11.e)",
         "03.c LunarMonth::new: accepted iff month in 1..12 or the negative of the year's leap month; index in year = month - 1 (+1 for the leap month and after it); 12 or 13 positions (engine B, any leap table, any astronomy)",
-        "03.b a lunar year lists its 12 or 13 months in index order (thorough tier; = 13.c)",
+        "03.b a lunar year lists its 12 or 13 months in index order (Kani: thorough tier, = 13.c; engine B: the listing loop on a month line, quick tier too)",
+        "03.d the year's day count is the sum of the day counts of the listed months (summing loop unrolled, bound proved), hence 348..360 / 377..390 for 29..30-day months and, wherever months abut, the distance between successive new-year days",
     ],
     "outside": ["29/30-day month lengths, exact abutment of consecutive months, 353-355 / 383-385-day years, agreement of per-month and per-year day counts with new-year distances: facts about ~123,700 evaluated lunations of the real new-moon series (no symbolic handle: sin/cos series)"],
     "assumptions": c11.META["assumptions"][1:3] + ["03.c: floating-point values of the astronomical kernel and every comparison between them are arbitrary (ENV-A); LunarYear::get_leap_month arbitrary per year (ENV-L)"],
@@ -27,4 +28,5 @@ def engine_b(tier, seed, scr):
     eng, err = engine(scr, "03.c/B/month-new", "03.c")
     if eng is None:
         return err
-    return [lunar.k_month_new(eng)]
+    from mir2smt import lists
+    return [lunar.k_month_new(eng), lists.k_lunar_year_months(eng, 12), lists.k_lunar_year_months(eng, 13), lists.k_lunar_year_days(eng, 12), lists.k_lunar_year_days(eng, 13)]
